@@ -46,7 +46,7 @@ theorem Rep.hasChild_iff {sch black d m P} (h : Rep sch black d m P) :
       obtain ⟨t, rfl⟩ := hall p hp
       simp
     simp [Mask.hasChild_def, hal, this, ht]
-  | spec ht hb hne hall hia hhc hfd hno hyes hrec =>
+  | spec ht hb hne hall hia hhc hfd hkind hnd hno hyes hrec =>
     have : P.any List.isEmpty = false := by
       rw [List.any_eq_false]
       intro p hp
@@ -297,7 +297,7 @@ theorem walk_rep {cfg : Sites} {sch : Schema} {black : Bool} :
           right; left
           rw [hr.hasChild_iff, (NoTerminalStar_tails_star hs hall (hnts rfl)).2]
           rfl
-    | spec ht hb hne hall hia hhc hfd hno hyes hrec =>
+    | spec ht hb hne hall hia hhc hfd hkind hnd hno hyes hrec =>
       rw [SelN_spec hall]
       have hr := query_spec ht hia hfd s _ hq
       have hks := QStep.toP_not_star s
@@ -526,7 +526,9 @@ theorem Rep.spec_inv {sch black d m P} (h : Rep sch black d m P) (hP : AllSpec P
     (∀ k, k.isStar = false → tailsOf k P ≠ [] →
          ∃ c cu, m.kid k = .some c ∧ stepCur sch m.typ d k = some cu ∧ c.typ = cu.1) ∧
     (∀ k c cu, m.kid k = .some c → stepCur sch m.typ d k = some cu → tailsOf k P ≠ [] →
-         Rep sch black cu.2 c (tailsOf k P)) := by
+         Rep sch black cu.2 c (tailsOf k P)) ∧
+    (∀ k, k.isStar = false → tailsOf k P ≠ [] → kindOK m.typ k = true) ∧
+    (m.fd.wfI ∧ m.ints.wfI ∧ m.strs.wfS) := by
   cases h with
   | leaf ht hb hne hall hia hal hnk =>
     cases P with
@@ -545,7 +547,7 @@ theorem Rep.spec_inv {sch black d m P} (h : Rep sch black d m P) (hP : AllSpec P
       simp at h2
       rw [h2.1, hs] at hk
       simp at hk
-  | spec ht hb hne hall hia hhc hfd hno hyes hrec => exact ⟨hia, hhc, hfd, hno, hyes, hrec⟩
+  | spec ht hb hne hall hia hhc hfd hkind hnd hno hyes hrec => exact ⟨hia, hhc, hfd, hno, hyes, hrec, hkind, hnd⟩
 
 theorem Mask.kid_none_of_NoKids {m : Mask} (h : m.NoKids) (k : PStep) : m.kid k = .none := by
   obtain ⟨h1, h2, h3, _⟩ := h
@@ -563,7 +565,7 @@ theorem child_RepF {sch black d m P} {k : PStep} {cu : Ft × Ty} (hm : RepF sch 
     simp only [Mask.kidChild, Mask.kid_none_of_NoKids hnk, tailsOf_nil]
     exact ⟨Or.inl ⟨rfl, rfl, rfl, rfl, rfl, rfl, rfl, rfl, rfl, rfl⟩, rfl⟩
   | inr hr =>
-    obtain ⟨_, _, _, hno, hyes, hrec⟩ := hr.spec_inv hP
+    obtain ⟨_, _, _, hno, hyes, hrec, _, _⟩ := hr.spec_inv hP
     by_cases ht : tailsOf k P = []
     · simp only [Mask.kidChild, hno k hk ht, ht]
       exact ⟨Or.inl ⟨rfl, rfl, rfl, rfl, rfl, rfl, rfl, rfl, rfl, rfl⟩, rfl⟩
@@ -594,14 +596,72 @@ theorem Mask.putKid_fd (m : Mask) (k : PStep) (c : Mask) (h : m.fdA = true ∨ m
   obtain ⟨typ, isAll, isBlack, all, fdA, fd, intA, ints, strA, strs⟩ := m
   cases k <;> simp_all [Mask.putKid, Mask.setFd, Mask.setInts, Mask.setStrs, Mask.fdA, Mask.fd]
 
+theorem Kids.keys_put (k : Key) (v : Mask) : ∀ ks : Kids,
+    (ks.put k v).keys = if k ∈ ks.keys then ks.keys else ks.keys ++ [k]
+  | .nil => by simp [Kids.put, Kids.keys]
+  | .cons k' m r => by
+    by_cases h : k' = k
+    · subst h; simp [Kids.put, Kids.keys]
+    · have h' : ¬ k = k' := fun e => h e.symm
+      simp only [Kids.put, h, ↓reduceIte, Kids.keys, List.mem_cons, h', false_or, Kids.keys_put k v r]
+      split <;> simp
+
+theorem Kids.nodup_put (k : Key) (v : Mask) (ks : Kids) (h : ks.keys.Nodup) : (ks.put k v).keys.Nodup := by
+  rw [Kids.keys_put]
+  split
+  · exact h
+  · rename_i hk
+    rw [List.nodup_append]
+    refine ⟨h, by simp, ?_⟩
+    intro a ha b hb
+    simp only [List.mem_singleton] at hb
+    subst hb
+    intro e; subst e; exact hk ha
+
+theorem Kids.mem_keys_put {k : Key} {v : Mask} {ks : Kids} {x : Key} (h : x ∈ (ks.put k v).keys) : x ∈ ks.keys ∨ x = k := by
+  rw [Kids.keys_put] at h
+  split at h
+  · exact Or.inl h
+  · rw [List.mem_append] at h
+    rcases h with h | h
+    · exact Or.inl h
+    · exact Or.inr (by simpa using h)
+
+theorem Kids.wfI_put (n : Int) (v : Mask) (ks : Kids) (h : ks.wfI) : (ks.put (.i n) v).wfI :=
+  ⟨Kids.nodup_put _ _ _ h.1, fun x hx => by
+    rcases Kids.mem_keys_put hx with hx | hx
+    · exact h.2 x hx
+    · exact ⟨n, hx⟩⟩
+
+theorem Kids.wfS_put (b : Bytes) (v : Mask) (ks : Kids) (h : ks.wfS) : (ks.put (.s b) v).wfS :=
+  ⟨Kids.nodup_put _ _ _ h.1, fun x hx => by
+    rcases Kids.mem_keys_put hx with hx | hx
+    · exact h.2 x hx
+    · exact ⟨b, hx⟩⟩
+
+theorem Mask.putKid_nodup (m : Mask) (k : PStep) (c : Mask)
+    (h : m.fd.wfI ∧ m.ints.wfI ∧ m.strs.wfS) :
+    (m.putKid k c).fd.wfI ∧ (m.putKid k c).ints.wfI ∧ (m.putKid k c).strs.wfS := by
+  obtain ⟨typ, isAll, isBlack, all, fdA, fd, intA, ints, strA, strs⟩ := m
+  obtain ⟨h1, h2, h3⟩ := h
+  cases k
+  · exact ⟨Kids.wfI_put _ _ _ h1, h2, h3⟩
+  · exact ⟨h1, Kids.wfI_put _ _ _ h2, h3⟩
+  · exact ⟨h1, h2, Kids.wfS_put _ _ _ h3⟩
+  · exact ⟨h1, h2, h3⟩
+  · exact ⟨h1, h2, h3⟩
+
 /-- putting back a child that represents `tailsOf k P ++ X` makes the node represent `P ++ k::X` -/
 theorem Rep_putKid {sch black d m P} {k : PStep} {c' : Mask} {cu : Ft × Ty} {X : List APath}
     (hm : RepF sch black d m P) (hP : AllSpec P) (hk : k.isStar = false) (ht : m.typ ≠ .invalid)
+    (hkk : kindOK m.typ k = true)
     (hcu : stepCur sch m.typ d k = some cu) (hct : c'.typ = cu.1)
     (hrc : Rep sch black cu.2 c' (tailsOf k P ++ X)) (hX : X ≠ []) :
     Rep sch black d (m.putKid k c') (P ++ X.map (k :: ·)) := by
   have hb := hm.isBlack_eq
   have hold : m.isAll = false ∧ (m.fdA = true ∨ m.fd = .nil) ∧
+      (∀ k, k.isStar = false → tailsOf k P ≠ [] → kindOK m.typ k = true) ∧
+      (m.fd.wfI ∧ m.ints.wfI ∧ m.strs.wfS) ∧
       (∀ k, k.isStar = false → tailsOf k P = [] → m.kid k = .none) ∧
       (∀ k, k.isStar = false → tailsOf k P ≠ [] →
          ∃ c cu, m.kid k = .some c ∧ stepCur sch m.typ d k = some cu ∧ c.typ = cu.1) ∧
@@ -610,13 +670,15 @@ theorem Rep_putKid {sch black d m P} {k : PStep} {c' : Mask} {cu : Ft × Ty} {X 
     cases hm with
     | inl hf =>
       obtain ⟨rfl, h1, _, _, hnk⟩ := hf
-      refine ⟨h1, Or.inr hnk.1, fun k _ _ => Mask.kid_none_of_NoKids hnk k, ?_, ?_⟩
+      refine ⟨h1, Or.inr hnk.1, ?_, ?_, fun k _ _ => Mask.kid_none_of_NoKids hnk k, ?_, ?_⟩
+      · intro k _ h; exact absurd (tailsOf_nil k) h
+      · rw [hnk.1, hnk.2.1, hnk.2.2.1]; simp [Kids.keys, Kids.wfI, Kids.wfS]
       · intro k _ h; exact absurd (tailsOf_nil k) h
       · intro k c cu _ _ h; exact absurd (tailsOf_nil k) h
     | inr hr =>
-      obtain ⟨h1, _, h3, h4, h5, h6⟩ := hr.spec_inv hP
-      exact ⟨h1, h3, h4, h5, h6⟩
-  obtain ⟨hia, hfd, hno, hyes, hrec⟩ := hold
+      obtain ⟨h1, _, h3, h4, h5, h6, h7, h8⟩ := hr.spec_inv hP
+      exact ⟨h1, h3, h7, h8, h4, h5, h6⟩
+  obtain ⟨hia, hfd, hkind, hnd, hno, hyes, hrec⟩ := hold
   have htl : ∀ k', tailsOf k' (P ++ X.map (k :: ·)) = if k' = k then tailsOf k P ++ X else tailsOf k' P := by
     intro k'
     rw [tailsOf_append]
@@ -641,6 +703,14 @@ theorem Rep_putKid {sch black d m P} {k : PStep} {c' : Mask} {cu : Ft × Ty} {X 
   · rw [Mask.putKid_isAll]; exact hia
   · exact Mask.putKid_hasChild m k c' hk ht
   · exact Mask.putKid_fd m k c' hfd
+  · intro k' hk' htk
+    rw [htl] at htk
+    rw [Mask.putKid_typ]
+    by_cases h : k' = k
+    · rw [h]; exact hkk
+    · simp only [h, ↓reduceIte] at htk
+      exact hkind k' hk' htk
+  · exact Mask.putKid_nodup m k c' hnd
   · intro k' hk' htk
     rw [htl] at htk
     rw [Mask.kid_putKid c' hk hk']
@@ -712,7 +782,7 @@ theorem Rep.star_inv {sch black d m P} {s : PStep} (h : Rep sch black d m P) (hs
       have : s' = s := h2.1.symm
       subst this
       exact ⟨hia, hnk, a, cu, hal, hcu, hat, hr⟩
-  | spec ht hb hne hall hia hhc hfd hno hyes hrec =>
+  | spec ht hb hne hall hia hhc hfd hkind hnd hno hyes hrec =>
     cases P with
     | nil => exact absurd rfl hne
     | cons p P' =>
@@ -887,7 +957,7 @@ theorem addViaField_ok {cfg : Sites} {sch : Schema} {black : Bool} {rec srec} (h
     · unfold addViaField
       simp only [hd', hft', hsite, Res.ok_bind, hchild, hc']
       rfl
-    · exact Rep_putKid hm hP hk (by simp [htyp]) hcu htc' hrc' hX
+    · exact Rep_putKid hm hP hk (by simp [htyp]) (by simp [kindOK, htyp]) hcu htc' hrc' hX
 
 
 theorem nil_of_NC_anyField {P X : List APath} (hX : X ≠ [])
@@ -1229,7 +1299,7 @@ theorem forSteps_ok {sch : Schema} {black : Bool} {d : Ty} {cu : Ft × Ty} {X : 
     (hadd : ∀ c T, RepF sch black cu.2 c T → c.typ = cu.1 → (T ++ X).Pairwise NC →
         ∃ c', add c = .ok c' ∧ Rep sch black cu.2 c' (T ++ X) ∧ c'.typ = cu.1) :
     ∀ (ks : List PStep) (m : Mask) (P0 : List APath),
-      (∀ k ∈ ks, k.isStar = false ∧ stepCur sch m.typ d k = some cu) →
+      (∀ k ∈ ks, k.isStar = false ∧ stepCur sch m.typ d k = some cu ∧ kindOK m.typ k = true) →
       RepF sch black d m P0 → AllSpec P0 → m.typ ≠ .invalid →
       (P0 ++ ks.flatMap (fun k => X.map (k :: ·))).Pairwise NC →
       ∃ m', forSteps add cu.1 ks m = .ok m' ∧ RepF sch black d m' (P0 ++ ks.flatMap (fun k => X.map (k :: ·))) ∧
@@ -1241,14 +1311,14 @@ theorem forSteps_ok {sch : Schema} {black : Bool} {d : Ty} {cu : Ft × Ty} {X : 
     exact ⟨m, rfl, by simpa using hm, rfl⟩
   | cons k ks ih =>
     intro m P0 hks hm hP0 ht hnc
-    obtain ⟨hk, hcu⟩ := hks k (by simp)
+    obtain ⟨hk, hcu, hkk⟩ := hks k (by simp)
     have hb := hm.isBlack_eq
     simp only [List.flatMap_cons] at hnc ⊢
     rw [← List.append_assoc] at hnc ⊢
     have hnc1 : (P0 ++ X.map (k :: ·)).Pairwise NC := (List.pairwise_append.mp hnc).1
     obtain ⟨hcr, hct⟩ := child_RepF hm hP0 hk hcu
     obtain ⟨c', hc', hrc', htc'⟩ := hadd _ _ hcr hct (pairwise_tails_new hk hnc1)
-    have hr1 := Rep_putKid hm hP0 hk ht hcu htc' hrc' hX
+    have hr1 := Rep_putKid hm hP0 hk ht hkk hcu htc' hrc' hX
     have hP1 : AllSpec (P0 ++ X.map (k :: ·)) := by
       intro p hp
       rw [List.mem_append] at hp
@@ -1406,11 +1476,11 @@ theorem addIndex_ok {cfg : Sites} {sch : Schema} {black : Bool} {rec srec}
             have hia := hm.isAll_false hP
             have hscall : sc.all = false := by rw [hallstar, hstar]
             have hcu : ∀ k ∈ (sc.ids.map Int.ofNat).map PStep.idx,
-                k.isStar = false ∧ stepCur sch m.typ (.list e) k = some (nextFt, et') := by
+                k.isStar = false ∧ stepCur sch m.typ (.list e) k = some (nextFt, et') ∧ kindOK m.typ k = true := by
               intro k hk
               rw [List.mem_map] at hk
               obtain ⟨i, _, rfl⟩ := hk
-              exact ⟨rfl, by simp [stepCur, liftO_eq_ok.mp het, liftO_eq_ok.mp hnft, liftO_eq_ok.mp het']⟩
+              exact ⟨rfl, by simp [stepCur, liftO_eq_ok.mp het, liftO_eq_ok.mp hnft, liftO_eq_ok.mp het'], by simp [kindOK, htyp']⟩
             have hadd : ∀ c T, RepF sch black et' c T → c.typ = nextFt → (T ++ t.expand).Pairwise NC →
                 ∃ c', (fun c => do let et' ← liftO (sch.unwrap et); rec c sc.rest et') c = .ok c' ∧
                   Rep sch black et' c' (T ++ t.expand) ∧ c'.typ = nextFt := by
@@ -1558,11 +1628,11 @@ theorem addMap_ok {cfg : Sites} {sch : Schema} {black : Bool} {rec srec}
                     exact allSpec_of_NC (k := .idx i) rfl hX (List.pairwise_append.mp hnc).1
                 have hia := hm.isAll_false hP
                 have hcu : ∀ k ∈ (sc.ids.map Int.ofNat).map PStep.idx,
-                    k.isStar = false ∧ stepCur sch m.typ (.map kt v) k = some (nextFt, et') := by
+                    k.isStar = false ∧ stepCur sch m.typ (.map kt v) k = some (nextFt, et') ∧ kindOK m.typ k = true := by
                   intro k hk
                   rw [List.mem_map] at hk
                   obtain ⟨i, _, rfl⟩ := hk
-                  exact ⟨rfl, by simp [stepCur, liftO_eq_ok.mp het, liftO_eq_ok.mp hnft, liftO_eq_ok.mp het']⟩
+                  exact ⟨rfl, by simp [stepCur, liftO_eq_ok.mp het, liftO_eq_ok.mp hnft, liftO_eq_ok.mp het'], by have h9 := hint; simp at h9; simp [kindOK, h9]⟩
                 obtain ⟨m', hm', hr', ht'⟩ := forSteps_ok (cu := (nextFt, et')) hX hadd _ m P hcu hm hP htne hnc
                 have hne' : P ++ ((sc.ids.map Int.ofNat).map PStep.idx).flatMap (fun k => t.expand.map (k :: ·)) ≠ [] := by
                   intro h
@@ -1597,11 +1667,11 @@ theorem addMap_ok {cfg : Sites} {sch : Schema} {black : Bool} {rec srec}
                     exact allSpec_of_NC (k := .key i) rfl hX (List.pairwise_append.mp hnc).1
                 have hia := hm.isAll_false hP
                 have hcu : ∀ k ∈ sc.strs.map PStep.key,
-                    k.isStar = false ∧ stepCur sch m.typ (.map kt v) k = some (nextFt, et') := by
+                    k.isStar = false ∧ stepCur sch m.typ (.map kt v) k = some (nextFt, et') ∧ kindOK m.typ k = true := by
                   intro k hk
                   rw [List.mem_map] at hk
                   obtain ⟨i, _, rfl⟩ := hk
-                  exact ⟨rfl, by simp [stepCur, liftO_eq_ok.mp het, liftO_eq_ok.mp hnft, liftO_eq_ok.mp het']⟩
+                  exact ⟨rfl, by simp [stepCur, liftO_eq_ok.mp het, liftO_eq_ok.mp hnft, liftO_eq_ok.mp het'], by have h9 := hstr; simp at h9; simp [kindOK, h9]⟩
                 obtain ⟨m', hm', hr', ht'⟩ := forSteps_ok (cu := (nextFt, et')) hX hadd _ m P hcu hm hP htne hnc
                 have hne' : P ++ (sc.strs.map PStep.key).flatMap (fun k => t.expand.map (k :: ·)) ≠ [] := by
                   intro h
@@ -1780,7 +1850,7 @@ theorem leaf_ok {sch : Schema} {black : Bool} {m : Mask} {d : Ty} {P : List APat
         obtain ⟨t, h1⟩ := hall2 p (by simp)
         have := hall p (by simp)
         simp [h1] at this
-    | spec ht hb hne hall2 hia hhc hfd hno hyes hrec =>
+    | spec ht hb hne hall2 hia hhc hfd hkind hnd hno hyes hrec =>
       cases P with
       | nil => exact absurd rfl hne
       | cons p P' =>
@@ -2370,11 +2440,12 @@ theorem newMask_panic {cfg : Sites} {sch : Schema} {desc : Ty} {black : Bool} {s
       exact ⟨q, by simp [hq], hc⟩
 
 
-/-- which switch of `Sites` a panic site hangs on (`marshalNilFd` has none: it is unreachable, see docs) -/
+/-- which switch of `Sites` a panic site hangs on (`marshalNilFd` has none: only MarshalJSON can reach it,
+and only on a struct node that is neither "all" nor has a field map — see `Mask.structAlloc`) -/
 def Sites.enabled (cfg : Sites) : Site → Bool
   | .headNeg => cfg.headNeg | .atoi => cfg.atoi | .int32 => cfg.int32 | .errTok => cfg.errTok
   | .strSlice => cfg.strSlice | .getPathStar => cfg.getPathStar | .fieldNilFd => cfg.fieldNilFd
-  | .foreachNilFd => cfg.foreachNilFd | .foreachInvalid => cfg.foreachInvalid | .marshalNilFd => true
+  | .foreachNilFd => cfg.foreachNilFd | .foreachInvalid => cfg.foreachInvalid | .marshalNilFd => false
 
 theorem siteErrTok_panic {cfg : Sites} {α} {s : Site} (h : (siteErrTok cfg : Res α) = .panic s) :
     s = .errTok ∧ cfg.errTok = true := by
@@ -3048,5 +3119,46 @@ theorem getPath_total {cfg : Sites} {sch : Schema} {m : MaskOpt} {desc : Ty} {pa
     getPath cfg sch m desc path ≠ .crash :=
   gpLoop_total hp _ _ _ _ _ (List.suffix_refl _) (by omega)
 
+
+
+theorem mem_suffixes {r : Bytes} : ∀ {l : Bytes}, r <:+ l → r ∈ suffixes l
+  | [], h => by
+    have : r = [] := List.eq_nil_of_suffix_nil h
+    simp [suffixes, this]
+  | a :: l, h => by
+    rw [List.suffix_cons_iff] at h
+    rcases h with h | h
+    · simp [suffixes, h]
+    · simp [suffixes, mem_suffixes h]
+
+theorem cause_absurd {cfg : Sites} {sch : Schema} {p : Bytes} {s : Site}
+    (hids : cfg.headNeg = true → idsNonneg sch = true) (htok : tokSafe cfg p = true) (h : Cause cfg sch p s) : False := by
+  unfold tokSafe at htok
+  rw [List.all_eq_true] at htok
+  rcases h with ⟨r, hr, h⟩ | ⟨_, hc, r, n, r', hr, h, hn⟩ | ⟨_, hc, st, hst, f, hf, hneg⟩
+  · have := htok r (mem_suffixes hr)
+    simp [h] at this
+  · have := htok r (mem_suffixes hr)
+    simp [h, hc] at this
+    omega
+  · have := hids hc
+    unfold idsNonneg at this
+    rw [List.all_eq_true] at this
+    have := this st hst
+    rw [List.all_eq_true] at this
+    have := this f hf
+    simp at this
+    omega
+
+
+
+theorem progress_of_progressB {cfg : Sites} {p : Bytes} (h : progressB cfg p = true) : Progress cfg p := by
+  intro r hr t r' hn hne
+  unfold progressB at h
+  rw [List.all_eq_true] at h
+  have := h r (mem_suffixes hr)
+  cases r with
+  | nil => exact absurd rfl hne
+  | cons a l => simpa [hn] using this
 
 end FieldMask
